@@ -406,6 +406,10 @@ func localFieldStores(addr ssa.Value) ([]ssa.Value, bool) {
 func addBounded(G valSet, v ssa.Value) {
 	for {
 		G[v] = true
+		// every load of the same field of a write-once local struct is the same value
+		for _, peer := range localFieldLoadPeers(v) {
+			G[peer] = true
+		}
 		switch x := v.(type) {
 		case *ssa.Convert:
 			v = x.X
